@@ -271,6 +271,8 @@ class VN:
         if isinstance(e.op, ast.UAdd):
             return v
         if isinstance(e.op, ast.Not):
+            if is_tuple(v):
+                return FALSE if len(v) > 0 else TRUE  # truthiness of a sequence of known length
             return negate(v)
         if isinstance(e.op, ast.Invert):
             return T.app("invert", v)
@@ -1030,6 +1032,8 @@ class VN:
             return self.block(s.body, [st])
         if isinstance(s, ast.If):
             c = self._as_term(self.ev(s.test, st))
+            if is_tuple(c):
+                c = TRUE if len(c) > 0 else FALSE  # truthiness of a sequence of known length
             nc = negate(c)
             if any(c == k for k in st.conds):
                 return self.block(s.body, [st])
